@@ -25,7 +25,7 @@ CHECKS = {
          "Lean 4 theorems (case analysis + omega over faithful uint32/int32 arithmetic) + model/implementation correspondence check", "§5 C04"),
  "C05": ("The disk-vs-view state machine: disk changes only at Sync, abandoning after any prefix leaves the last synced image, every library write lands inside an archive "
          "region so header and length are fixed; after Sync another Open returns the very handle - for created, re-created and opened files (what Open accepts is the encoding of what it returns); "
-         "flush/sync/write call sites are regenerated facts. Partial: OS durability is out of reach; filebuffer is modelled.",
+         "flush/sync/write call sites are regenerated facts. Partial: OS durability is out of reach; filebuffer is modelled. A hand-off leg on the real code: an Open that waited for a writer reads what the writer synced and does not undo it.",
          "Lean 4 theorems (induction over operation lists; write frame through the whole write path; decode/encode inverse) + file-bytes-after-every-step correspondence", "§5 C05"),
  "C06": ("The byte layout (big-endian fields, header order, contiguous archives, 12-byte slots, total length - also for a file re-created in place over an older one) is proved "
          "of the writer model; a Lean model of the reference reader's fetch is proved to return what whispertool's fetch returns from the same bytes; interoperation with go-whisper is validated three ways on the same bytes.",
@@ -34,7 +34,7 @@ CHECKS = {
          "that test, and the header codec round-trips every accepted header. The float comparison for xFilesFactor is a named law validated against the code on boundary bit patterns.",
          "Lean 4 theorem (induction over the list, omega with products as atoms) + differential validation of all entry points", "§5 C07"),
  "C14": ("Round trip and framing of all eight wire types, the WantLarger contract on every proper prefix, and the other direction for headers (what the decoder accepts is "
-         "exactly the encoding of what it returns) are Lean theorems for all objects, lengths and trailing bytes; tied to the code by differential runs on generated objects, all their prefixes, and used receivers.",
+         "exactly the encoding of what it returns) are Lean theorems for all objects, lengths and trailing bytes; tied to the code by differential runs on generated objects, all their prefixes, used receivers, buffers that already hold bytes, and two-gigabyte prefixes of long series (untouched mappings).",
          "Lean 4 theorems (induction over lists, omega) + model/implementation correspondence check", "§5 C14"),
  "C15": ("Totality (no panic), sane WantLarger sizes and input-bounded allocation of every decoder and of Open are Lean theorems over all byte strings; on any handle Open returns "
          "no update, batch update or raw read panics, nor any fetch inside the clock zone, for every operation sequence with the file replaced by arbitrary bytes at any point. "
@@ -55,11 +55,11 @@ MORE = {
  "C09": ("Exactness, cleanliness, symmetry and the missing-file / mismatch / glob verdicts (one differing file anywhere makes the run report a difference) are Lean theorems about the diff model for all series; "
          "tied to the code by differential runs of the real command with parsed output.", "Lean 4 theorems (list induction over DiffPoints) + correspondence check", "§5 C09"),
  "C10": ("Slot-wise NaN-skipping fold, identity on one file, irrelevance of holes, NaN-iff-all-NaN, the header being the first file's and a layout mismatch being an error are Lean theorems for every float instance; "
-         "tied to the code by differential runs of sum over generated item trees.", "Lean 4 theorems (fold lemmas over FOps) + correspondence check", "§5 C10"),
+         "tied to the code by differential runs of sum over generated item trees, and one item of several hundred files summed against what was written.", "Lean 4 theorems (fold lemmas over FOps) + correspondence check", "§5 C10"),
  "C11": ("sum-copy and sum-diff are the copy and diff cores applied to the sum, so C08-C10 transfer: sum-copy then sum-diff is clean command-core to command (all archives), one differing item anywhere makes a "
          "multi-item sum-diff report the difference. Also asserted by post-checks on the real code.", "Lean 4 corollaries + correspondence check with post-conditions", "§5 C11"),
  "C12": ("The client decodes exactly what the server's local call produced (codec round trips, C14), composed with the commands: view, view-raw and sum through the server print exactly what the local command prints "
-         "(any file Open accepts, window inside the clock zone). The transport (HTTP, URL escaping) is outside the model and is exercised by real round trips comparing local and remote observations for every read and glob.",
+         "(any file Open accepts, window inside the clock zone). The transport (HTTP, URL escaping) is outside the model and is exercised by real round trips comparing local and remote observations for every read and glob, including an archive of several hundred thousand points and sibling directories whose listing order differs from plain string order.",
          "Lean 4 theorems (response codec round trip composed with the command model) + local/remote differential runs through a real server", "§5 C12"),
  "C13": ("Partial: a protocol model of the lock proved for every event sequence (no lost update, readers see a session boundary, blocked opens change nothing, failed opens release); the kernel's flock and GC timing "
          "are exercised by stress legs and lock probes after every kind of failed Open/Create.", "Lean 4 invariant by induction over event sequences + concurrency stress (goroutines and processes) and lock probes", "§5 C13"),
@@ -67,13 +67,13 @@ MORE = {
          "also in glob mode over any list of files or items. The text-out writer, flag parsing and HTTP are not modelled; the whole product subcommand x selection x window x fault is asserted on the real code on every run.",
          "Lean 4 theorems about command models (totality by composition) + fault-product correspondence runs with property-level assertions", "§5 C16"),
  "C17": ("Partial: interleaving theorem over atomic page reads (every schedule returns sequential results); data-race freedom is delegated to the Go race detector on the concurrency legs "
-         "(shared-handle fetches incl. archives of thousands of slots, sums, parallel requests) plus a regenerated structural fact.", "Lean 4 interleaving invariant + race-detector runs", "§5 C17"),
+         "(shared-handle fetches incl. archives of thousands of slots, sums incl. one item of 140+ files, parallel requests, refused requests that must leave nothing locked - deadlines on every command and request) plus a regenerated structural fact.", "Lean 4 interleaving invariant + race-detector runs", "§5 C17"),
  "C18": ("Completeness, soundness and order of view's records, the view-raw range filter and the stable sort are Lean theorems about the record model (formats from the source); view within view-raw is a theorem "
-         "command to command (all archives or one, sorted or not, window inside the clock zone); number/time formatting is exercised by parsing the real output back.",
+         "command to command (all archives or one, sorted or not, window inside the clock zone); number/time formatting is exercised by parsing the real output back; one archive of more than a hundred thousand slots is dumped and compared with what was written.",
          "Lean 4 theorems about the record model composed with the ring theorems + correspondence check on parsed output", "§5 C18"),
  "C20": ("Refusal of existing files, header/length as requested, emptiness without fill, and - on a Lean model of the points generator with the random stream as a parameter - the value clauses: per archive one point per step, "
          "every value at most max*S_k/S_0, every coarser point at or after the first finer point the sum of the finer points of its slot. The generator model is tied to cmd/generate.go by replaying random streams "
-         "through the verif hook; the real command's output is also judged by an executable specification.",
+         "through the verif hook; the real command's output is also judged by an executable specification; that the command reads the wall clock once is a regenerated fact (FactsTie.clock_readers) and the library clock is skewed while it runs.",
          "Lean 4 theorems (random stream as a parameter) + replayed-stream correspondence through a build-tag hook + executable specification on the generated file", "§5 C20"),
 }
 CHECKS.update(MORE)
